@@ -20,13 +20,20 @@
 (* (:150 `expect("Full slot with nothing in it")`); overwriting a full cell  *)
 (* at S_Write would lose a value (C06).  Theorem: none of them can happen.   *)
 (***************************************************************************)
+(* This module adds the VALUES: the value of send operation o is o itself; a  *)
+(* cell holds a value or Nothing; a receive operation ends with the value it *)
+(* took.  Theorem: no value is ever in two places - not in two cells, not    *)
+(* handed to two receivers, not both in a cell and handed out, never handed  *)
+(* out while its sender still has it or has discarded it (C06: nothing       *)
+(* invented or duplicated; C07: every value has exactly one fate).           *)
 EXTENDS TLAPS
 
-CONSTANTS Ops, Indices, Senders
+CONSTANTS Ops, Indices, Senders, Nothing
+ASSUME NothingNotOp == Nothing \notin Ops
 
-VARIABLES emptyQ, fullQ, pc, idx, cell
+VARIABLES emptyQ, fullQ, pc, idx, cell, got
 
-vars == <<emptyQ, fullQ, pc, idx, cell>>
+vars == <<emptyQ, fullQ, pc, idx, cell, got>>
 
 Pcs == {"start", "s_hold", "s_written", "r_hold", "r_taken", "done", "dropped", "none"}
 Holding == {"s_hold", "s_written", "r_hold", "r_taken"}
@@ -35,45 +42,47 @@ Init ==
     /\ emptyQ = Indices /\ fullQ = {}
     /\ pc = [o \in Ops |-> "start"]
     /\ idx \in [Ops -> Indices]
-    /\ cell = [i \in Indices |-> FALSE]
+    /\ cell = [i \in Indices |-> Nothing]
+    /\ got = [o \in Ops |-> Nothing]
 
 S_Deq(o) ==
     /\ o \in Senders /\ pc[o] = "start"
     /\ \/ /\ emptyQ = {}
           /\ pc' = [pc EXCEPT ![o] = "dropped"]
-          /\ UNCHANGED <<emptyQ, fullQ, idx, cell>>
+          /\ UNCHANGED <<emptyQ, fullQ, idx, cell, got>>
        \/ \E i \in emptyQ :
             /\ emptyQ' = emptyQ \ {i}
             /\ idx' = [idx EXCEPT ![o] = i]
             /\ pc' = [pc EXCEPT ![o] = "s_hold"]
-            /\ UNCHANGED <<fullQ, cell>>
+            /\ UNCHANGED <<fullQ, cell, got>>
 
 S_Write(o) ==
     /\ pc[o] = "s_hold"
-    /\ cell' = [cell EXCEPT ![idx[o]] = TRUE]
+    /\ cell' = [cell EXCEPT ![idx[o]] = o]
     /\ pc' = [pc EXCEPT ![o] = "s_written"]
-    /\ UNCHANGED <<emptyQ, fullQ, idx>>
+    /\ UNCHANGED <<emptyQ, fullQ, idx, got>>
 
 S_Enq(o) ==
     /\ pc[o] = "s_written"
     /\ fullQ' = fullQ \cup {idx[o]}
     /\ pc' = [pc EXCEPT ![o] = "done"]
-    /\ UNCHANGED <<emptyQ, idx, cell>>
+    /\ UNCHANGED <<emptyQ, idx, cell, got>>
 
 R_Deq(o) ==
     /\ o \notin Senders /\ pc[o] = "start"
     /\ \/ /\ fullQ = {}
           /\ pc' = [pc EXCEPT ![o] = "none"]
-          /\ UNCHANGED <<emptyQ, fullQ, idx, cell>>
+          /\ UNCHANGED <<emptyQ, fullQ, idx, cell, got>>
        \/ \E i \in fullQ :
             /\ fullQ' = fullQ \ {i}
             /\ idx' = [idx EXCEPT ![o] = i]
             /\ pc' = [pc EXCEPT ![o] = "r_hold"]
-            /\ UNCHANGED <<emptyQ, cell>>
+            /\ UNCHANGED <<emptyQ, cell, got>>
 
 R_Take(o) ==
     /\ pc[o] = "r_hold"
-    /\ cell' = [cell EXCEPT ![idx[o]] = FALSE]
+    /\ got' = [got EXCEPT ![o] = cell[idx[o]]]
+    /\ cell' = [cell EXCEPT ![idx[o]] = Nothing]
     /\ pc' = [pc EXCEPT ![o] = "r_taken"]
     /\ UNCHANGED <<emptyQ, fullQ, idx>>
 
@@ -81,7 +90,7 @@ R_Enq(o) ==
     /\ pc[o] = "r_taken"
     /\ emptyQ' = emptyQ \cup {idx[o]}
     /\ pc' = [pc EXCEPT ![o] = "done"]
-    /\ UNCHANGED <<fullQ, idx, cell>>
+    /\ UNCHANGED <<fullQ, idx, cell, got>>
 
 Next == \E o \in Ops : S_Deq(o) \/ S_Write(o) \/ S_Enq(o) \/ R_Deq(o) \/ R_Take(o) \/ R_Enq(o)
 Spec == Init /\ [][Next]_vars
@@ -92,13 +101,29 @@ NoPanic ==
     \A o \in Ops :
         /\ pc[o] = "s_written" => fullQ # Indices          \* room for the index in `full`
         /\ pc[o] = "r_taken" => emptyQ # Indices           \* room for the index in `empty`
-        /\ pc[o] = "r_hold" => cell[idx[o]]                \* "Full slot with nothing in it" cannot be
-        /\ pc[o] = "s_hold" => ~cell[idx[o]]               \* a full cell is never overwritten
+        /\ pc[o] = "r_hold" => cell[idx[o]] # Nothing      \* "Full slot with nothing in it" cannot be
+        /\ pc[o] = "s_hold" => cell[idx[o]] = Nothing      \* a full cell is never overwritten
+
+\* where the value of sender v can be
+InCell(v, i) == cell[i] = v
+Handed(v, r) == got[r] = v
+OneFate ==
+    \A v \in Senders :
+        /\ \A i, j \in Indices : (InCell(v, i) /\ InCell(v, j)) => i = j
+        /\ \A r, q \in Ops : (Handed(v, r) /\ Handed(v, q)) => r = q
+        /\ \A i \in Indices, r \in Ops : ~(InCell(v, i) /\ Handed(v, r))
+        /\ (\E i \in Indices : InCell(v, i)) \/ (\E r \in Ops : Handed(v, r))
+               => pc[v] \in {"s_written", "done"}
+NothingInvented ==
+    /\ \A i \in Indices : cell[i] # Nothing => cell[i] \in Senders
+    /\ \A r \in Ops : got[r] # Nothing => got[r] \in Senders /\ r \notin Senders
 
 TypeOK ==
     /\ emptyQ \in SUBSET Indices /\ fullQ \in SUBSET Indices
     /\ pc \in [Ops -> Pcs] /\ idx \in [Ops -> Indices]
-    /\ cell \in [Indices -> BOOLEAN]
+    /\ cell \in [Indices -> Senders \cup {Nothing}]
+    /\ got \in [Ops -> Senders \cup {Nothing}]
+    /\ Senders \subseteq Ops
 
 \* an index is in at most one place
 Partition ==
@@ -108,26 +133,37 @@ Partition ==
 
 \* and the cell of an index is full exactly where the protocol says so
 Cells ==
-    /\ \A i \in fullQ : cell[i]
-    /\ \A i \in emptyQ : ~cell[i]
+    /\ \A i \in fullQ : cell[i] # Nothing
+    /\ \A i \in emptyQ : cell[i] = Nothing
     /\ \A o \in Ops :
-         /\ pc[o] \in {"s_written", "r_hold"} => cell[idx[o]]
-         /\ pc[o] \in {"s_hold", "r_taken"} => ~cell[idx[o]]
+         /\ pc[o] \in {"s_written", "r_hold"} => cell[idx[o]] # Nothing
+         /\ pc[o] \in {"s_hold", "r_taken"} => cell[idx[o]] = Nothing
 
-IndInv == TypeOK /\ Partition /\ Cells
+\* a value in a cell or in a receiver's hands was written by its sender, once
+Values ==
+    /\ \A o \in Ops : o \notin Senders => pc[o] \in {"start", "r_hold", "r_taken", "done", "none"}
+    /\ \A o \in Senders : pc[o] \in {"start", "s_hold", "s_written", "done", "dropped"} /\ got[o] = Nothing
+    /\ \A o \in Ops : got[o] # Nothing => pc[o] \in {"r_taken", "done"}
+    /\ \A v \in Senders : pc[v] = "s_written" => cell[idx[v]] = v
+    /\ OneFate /\ NothingInvented
+
+IndInv == TypeOK /\ Partition /\ Cells /\ Values
+
+ASSUME SendersAreOps == Senders \subseteq Ops
 
 THEOREM InitInv == Init => IndInv
-  BY DEF Init, IndInv, TypeOK, Partition, Cells, Pcs, Holding
+  BY NothingNotOp, SendersAreOps DEF Init, IndInv, TypeOK, Partition, Cells, Values, OneFate, NothingInvented,
+     InCell, Handed, Pcs, Holding
 
-THEOREM InvNoPanic == IndInv => NoPanic
-  BY DEF IndInv, TypeOK, Partition, Cells, NoPanic, Holding, Pcs
+THEOREM InvNoPanic == IndInv => NoPanic /\ OneFate /\ NothingInvented
+  BY DEF IndInv, TypeOK, Partition, Cells, Values, NoPanic, Holding, Pcs
 
 THEOREM Step == IndInv /\ [Next]_vars => IndInv'
 <1> SUFFICES ASSUME IndInv, [Next]_vars PROVE IndInv'
   OBVIOUS
-<1> USE DEF IndInv, TypeOK, Partition, Cells, Pcs, Holding
+<1> USE NothingNotOp, SendersAreOps DEF IndInv, TypeOK, Partition, Cells, Values, OneFate, NothingInvented, InCell, Handed, Pcs, Holding
 <1>1. ASSUME NEW o \in Ops, S_Deq(o) PROVE IndInv'
-  BY <1>1 DEF S_Deq
+  BY <1>1, SMTT(120) DEF S_Deq
 <1>2. ASSUME NEW o \in Ops, S_Write(o) PROVE IndInv'
   BY <1>2 DEF S_Write
 <1>3. ASSUME NEW o \in Ops, S_Enq(o) PROVE IndInv'
@@ -143,7 +179,7 @@ THEOREM Step == IndInv /\ [Next]_vars => IndInv'
 <1> QED
   BY <1>1, <1>2, <1>3, <1>4, <1>5, <1>6, <1>7 DEF Next
 
-THEOREM Safety == Spec => []NoPanic
+THEOREM Safety == Spec => [](NoPanic /\ OneFate /\ NothingInvented)
 <1>1. Spec => []IndInv
   BY InitInv, Step, PTL DEF Spec
 <1> QED
